@@ -12,7 +12,9 @@ from .c11 import gap_of
 
 
 def expected_unit(u) -> Stats:
-    n, games, comp, gap_name, max_steps, reps, scheds, tag = u
+    n, games, comp, gap_name, max_steps, reps, scheds, tag = u[:8]
+    randomized = bool(u[8]) if len(u) > 8 else False     # the 'ugreedy' command: ties within 1e-6 broken by a seeded random.Random
+    slack = 1e-6 if randomized else 0.0
     import incomplete_cooperative.gameplay as gp
     from incomplete_cooperative.run.greedy import get_greedy_rewards
     st = Stats()
@@ -24,7 +26,7 @@ def expected_unit(u) -> Stats:
             ftol = max(ftol, gens.float_tol(g, n))
         resolved.append(tuple(g))
     doc = {"engine": "expected-greedy", "n": n, "games": [list(g) for g in resolved], "computer": comp, "gap": gap_name, "max_steps": max_steps,
-           "reps": reps, "tag": tag}
+           "reps": reps, "tag": tag, "randomized": randomized}
     base = A.kmask(A.minimal_ids(n))
     ex = A.explorable_ids(n)
     first = None
@@ -35,7 +37,11 @@ def expected_unit(u) -> Stats:
         sch = detpool.Schedule(lambda m, pp, a=a: [a[i % len(a)] % pp for i in range(m)], name, max_workers=max(a) + 1)
         try:
             with detpool.patched([gp], sch):
-                curve, chosen = get_greedy_rewards(env, max_steps, reps, gaps.registry()[gap_name], processes=p)
+                if randomized:
+                    import random as _random
+                    curve, chosen = get_greedy_rewards(env, max_steps, reps, gaps.registry()[gap_name], processes=p, random=_random.Random(17))
+                else:
+                    curve, chosen = get_greedy_rewards(env, max_steps, reps, gaps.registry()[gap_name], processes=p)
         except Exception as e:  # noqa: BLE001
             st.violation(f"[expected greedy n={n} {tag} p={p} {name}] raised {type(e).__name__}: {e}", processes=p, assignment=a, **doc)
             return st
@@ -71,7 +77,7 @@ def expected_unit(u) -> Stats:
                         if Kp >> alt & 1:
                             continue
                         am = float(np.mean([gap_of(n, comp, g, Kp | 1 << alt, gap_name, ftol)[0] for g in used]))
-                        if am < mean - 2 * tolmax:
+                        if am < mean - 2 * tolmax - slack:
                             msg = f"step {t}: extended by coalition {chosen[t - 1]} (mean gap {mean}) although coalition {alt} gives {am}"
                             break
                     if msg:
@@ -85,7 +91,7 @@ def expected_unit(u) -> Stats:
                 if mean < opt - 2 * tolmax:
                     msg = f"step {t}: mean gap {mean} is below the exhaustive optimum {opt} (impossible for true values)"
                     break
-                if t <= 1 and mean > opt + 2 * tolmax:
+                if t <= 1 and mean > opt + 2 * tolmax + slack:
                     msg = f"step {t}: mean gap {mean} differs from the exhaustive optimum {opt}, with which greedy must coincide for {t} reveals"
                     break
                 prev = mean
@@ -140,6 +146,11 @@ def run_expected(run: Run) -> None:
         us.append((4, picks4[gi:] + picks4[:gi], "superadditive_cached", gap_name, 4 if quick else 6, 1 + gi, small, f"exact4-{gap_name}"))
         us.append((4, [("GEN", "graph_random", 4, seed + gi), ("GEN", "xos", 4, seed + 3 + gi)], "superadditive", gap_name, 3 if quick else 5, 2, small,
                    f"gen4-{gap_name}"))
+    # the randomised variant ('ugreedy'): same rule up to the documented 1e-6 tie window; symmetric games so that ties really occur
+    sym3 = tuple(float(A.popcount(s) ** 2) for s in range(8))
+    sym4 = tuple(float(A.popcount(s) ** 2) for s in range(16))
+    us.append((3, [sym3, picks3[0]], "superadditive", "l1_norm", 3, 2, schedules(2, True), "ugreedy3", True))
+    us.append((4, [sym4], "superadditive_cached", "exploitability", 3, 1, [(1, "p1", [0]), (2, "round-robin", [0, 1])], "ugreedy4", True))
     total = fanout(expected_unit, sorted(us, key=lambda u: -(u[0] ** 3 * u[4] * len(u[6]))), procs=8, chunk=1)
     total.count("expected_greedy_configurations", len(us))
     run.add(total)
@@ -152,6 +163,7 @@ def run_expected(run: Run) -> None:
 def replay_expected(doc: dict):
     p = doc.get("processes", 1)
     a = doc.get("assignment", [0])
-    st = expected_unit((doc["n"], [tuple(g) for g in doc["games"]], doc["computer"], doc["gap"], doc["max_steps"], doc["reps"], [(p, "replay", a)], "replay"))
+    st = expected_unit((doc["n"], [tuple(g) for g in doc["games"]], doc["computer"], doc["gap"], doc["max_steps"], doc["reps"], [(p, "replay", a)], "replay",
+                        bool(doc.get("randomized"))))
     msgs = [v["message"] for v in st.violations]
     return bool(msgs), "; ".join(msgs) if msgs else "expected-greedy search behaves as specified on this configuration"
